@@ -602,10 +602,12 @@ def path_counts(body, start, weight, stop=None):
         term = body.blocks[n]["term"]
         is_exit = (not body.succ[n]) or n in stop
         if is_exit:
-            if term and term["t"] in ("return", "tailcall", "coroutine_drop") or n in stop:
+            if n in stop:
+                best = (w, w)
+            elif not stop and term and term["t"] in ("return", "tailcall", "coroutine_drop"):
                 best = (w, w)
             else:
-                best = None  # unreachable/diverging: not a path end we count
+                best = None  # unreachable/diverging, or (with `stop` given) an exit that is not a stop block: not counted
         else:
             lo = None
             hi = None
